@@ -1,9 +1,9 @@
 """Per-property job tables for ./check. One entry per claimed property."""
 
-def J(name, pkg, run, quick, thorough, shards_t=1, **kw):
+def J(name, pkg, run, quick, thorough, shards_t=1, shards_q=1, **kw):
     d = {"name": name, "pkg": pkg, "run": run,
          "checks": {"quick": quick, "thorough": thorough},
-         "shards": {"quick": 1, "thorough": shards_t}}
+         "shards": {"quick": shards_q, "thorough": shards_t}}
     d.update(kw)
     return d
 
@@ -166,6 +166,7 @@ CHECKS["C19"] = {
         J("totality", "c19", "TestTotality", 6000, 200000, 8),
         J("e2e-required", "c19", "TestEndToEndRequired", 800, 20000, 4),
         J("e2e-prop", "c19", "TestEndToEndProp", 500, 10000, 4),
+        J("e2e-prop-emptykey", "c19", "TestEndToEndPropEmptyKey", 500, 10000, 2),
         J("seedcorpus", "c19", "FuzzTagParse", None, None),
         J("fuzz", "c19", "FuzzTagParse", None, None, tiers=["thorough"], fuzz={"target": "FuzzTagParse", "time": {"quick": "10s", "thorough": "180s"}}, timeout={"thorough": 900}),
     ],
@@ -190,7 +191,7 @@ CHECKS["C11"] = {
 
 CHECKS["C15"] = {
     "level": "exploration",
-    "jobs": [J("merge", "c15", "TestMerge", 2500, 60000, 8)],
+    "jobs": [J("merge", "c15", "TestMerge", 2500, 60000, 8), J("reinitialize", "c15", "TestReinitialize", 800, 20000, 4)],
     "assumptions": [
         "documents are shape-consistent (a key is a map in every source or a leaf in every source): what Viper does with map-vs-scalar conflicts is third-party behaviour outside the property",
         "keys are lower-case (Viper lower-cases keys); argument sources carry ints and plain strings only",
@@ -236,6 +237,7 @@ CHECKS["C18"] = {
         J("validatevar", "c18", "TestValidateVar", 3000, 80000, 8),
         J("validatestruct", "c18", "TestValidateStruct", 1000, 20000, 4),
         J("validatemulti", "c18", "TestValidateMulti", 1500, 30000, 4),
+        J("validateptr", "c18", "TestValidateUnboundPointer", 1000, 20000, 2),
     ],
     "assumptions": [
         "github.com/expr-lang/expr and go-playground/validator are trusted third parties (the reference evaluates the substituted text with the former; the constraint reimplementation is self-checked against the latter on every case)",
@@ -248,6 +250,8 @@ CHECKS["C20"] = {
     "level": "exploration",
     "jobs": [
         J("races", "c20", "TestRaces", 400, 24000, 8, race=True),
+        J("races-reallogger", "c20", "TestRaces", 150, 4000, 4, race=True, env={"VERIF_REAL_LOGGER": "1"}),
+        J("reallogger-close-errors", "c20", "TestRealLoggerCloseErrors", 10, 50, 16, shards_q=8, race=True, env={"VERIF_REAL_LOGGER": "1"}),  # one chance per process (lazily initialised logger state): several fresh processes
         J("losfn-owned", "c20", "TestLoadOrStoreFnOwnedSchedule", 1500, 150000, 4, race=True),
         J("map-free", "c20", "TestMapFreeSchedule", 800, 100000, 4, race=True),
         J("sets-free", "c20", "TestSetsFreeSchedule", 600, 50000, 2, race=True),
